@@ -541,7 +541,7 @@ func runPipeCase(rec *trace.Recorder, c *pipeCase, seed int64, free bool, order 
 		order = []string{}
 	}
 	rec.Reset(trace.F{"children": c.Children, "async": c.Async, "outcome": c.Outcome, "root": c.Root,
-		"pkids": c.PKids, "pout": c.POut, "proot": c.PRoot, "flavor": c.Flavor, "gate": gated, "order": order})
+		"pkids": c.PKids, "pout": c.POut, "proot": c.PRoot, "flavor": c.Flavor, "npanic": c.NextPanic, "gate": gated, "order": order})
 
 	var mu sync.Mutex
 	ctx := context.Background()
